@@ -21,10 +21,11 @@ MANIFEST = dict(
          'tail-prefix variant of find_or_extend). Every transition of the table machine is executed on the real functions. Abstract cross-reference worlds '
          '(planes, texinfo/texdata/texture names, edges, primitives, original/split/HDR faces, brushes and sides, leafs, nodes, '
          'water info, overlays, brush models, static props - 2592 enumerated by TLC plus seeded random ones) are realised as real '
-         'objects, assigned to a synthesised empty BSP of each layout, saved and re-read; TLC predicts every shared table and every '
-         'index from the transcribed writers (conformance) and demands that every reference resolves to the object assigned '
-         '(the property). Visibility lumps are decoded by an independent reader and compared with the layout the specification '
-         'prescribes; static props are round-tripped in all 13 format versions against the field-presence table; boundary values '
+         'objects, assigned to a synthesised empty BSP of each layout, saved and re-read; TLC demands that every reference the '
+         'reader returns resolves to the object assigned and that every assigned view comes back as a prefix of the view read '
+         '(where the writers place added objects in the shared tables is not judged). Visibility lumps are decoded by an independent reader: '
+         'count, offsets in range, the bytes at every offset decode to the row, and the re-read value written again gives the same lump '
+         '(block order and sharing are the writer\'s business); static props are round-tripped in all 13 format versions against the field-presence table; boundary values '
          'of the integer and string fields are judged by the Fits law; all views parsed from independently encoded files of every '
          'layout are transplanted into an empty BSP and must project equal after save and re-read. The optional parts of each '
          'structured value (brush model keyvalues x solids, overlay faces/fades/levels, cubemap count x size, static prop count x '
@@ -54,7 +55,7 @@ def sig_of(m: dict) -> dict:
     sig['expected'] = m['exp']
     small = {k: v for k, v in rec.items() if k not in ('sig',)}
     if rec.get('k') == 'graph':
-        small = {'k': 'graph', 'w': rec['w'], 'obs': rec['obs'], 'waterSelf': rec.get('waterSelf')}
+        small = {'k': 'graph', 'w': rec['w'], 'obs': rec['obs'], 'waterSelf': rec.get('waterSelf'), 'noneRefs': rec.get('noneRefs')}
     sig['record'] = small
     return sig
 
